@@ -41,13 +41,19 @@ var envNames = [...]string{"plaintext-source", "encrypt-stream-consumer", "ciphe
 
 // Case is one pipeline run.
 type Case struct {
-	Len    int                `json:"len"`
-	Cipher int                `json:"cipher"` // 0 = option unset, 1 = AES-GCM, 2 = CHACHA20-POLY1305
-	KW     string             `json:"kw"`     // label of the key-wrap configuration
-	KeyOpt int                `json:"keyopt"`
-	Dir    int                `json:"dir"`    // 0 = kit encrypts, reference and kit decrypt; 1 = reference encrypts, kit decrypts
-	Policy [4]int             `json:"policy"` // uniform chunk / buffer size per environment, 0 = default
-	Devs   []encenv.Placement `json:"devs"`
+	Len    int    `json:"len"`
+	Cipher int    `json:"cipher"` // 0 = option unset, 1 = AES-GCM, 2 = CHACHA20-POLY1305
+	KW     string `json:"kw"`     // label of the key-wrap configuration
+	KeyOpt int    `json:"keyopt"`
+	Dir    int    `json:"dir"`    // 0 = kit encrypts, reference and kit decrypt; 1 = reference encrypts, kit decrypts
+	Policy [4]int `json:"policy"` // uniform chunk / buffer size per environment, 0 = default
+	// Frame, when Mul > 0, makes the ciphertext source deliver uniform frames
+	// of Mul*headerLength+Add bytes (overrides Policy[2]).
+	Frame struct {
+		Mul int `json:"mul"`
+		Add int `json:"add"`
+	} `json:"frame_rel_header"`
+	Devs []encenv.Placement `json:"devs"`
 }
 
 func (c *Case) String() string {
@@ -105,7 +111,7 @@ func refErrClass(err error) string {
 
 // runCase runs one pipeline and evaluates the three oracles. With record set
 // it returns, per environment, which deviations were applicable at each call.
-func runCase(c *Case, record bool) (masks [][]uint8, fails []failure) {
+func runCase(c *Case, record bool) (masks [][]encenv.Mask, fails []failure) {
 	fail := func(key, f string, a ...any) { fails = append(fails, failure{key, fmt.Sprintf(f, a...)}) }
 	kw := encenv.KWByLabel(c.KW)
 	ko := keyOpts[c.KeyOpt]
@@ -114,7 +120,7 @@ func runCase(c *Case, record bool) (masks [][]uint8, fails []failure) {
 	if refCipher == 0 {
 		refCipher = encv1ref.CipherAESGCM // "Dapr will choose AES-GCM as cipher by default"
 	}
-	masks = make([][]uint8, 4)
+	masks = make([][]encenv.Mask, 4)
 
 	var doc []byte
 	if c.Dir == 0 {
@@ -186,6 +192,10 @@ func runCase(c *Case, record bool) (masks [][]uint8, fails []failure) {
 	srcC.Chunk, srcC.Script, srcC.Record = c.Policy[envC], encenv.ScriptFor(c.Devs, envC), record
 	h, _ := encv1ref.SplitHeader(doc)
 	if h != nil {
+		srcC.HdrEnd = h.PayloadOffset
+		if c.Frame.Mul > 0 {
+			srcC.Chunk = c.Frame.Mul*h.PayloadOffset + c.Frame.Add
+		}
 		srcC.SegBase, srcC.SegSize = h.PayloadOffset, encv1ref.SegmentSize+encv1ref.TagSize
 	}
 	var asked []string
@@ -233,7 +243,7 @@ func runCase(c *Case, record bool) (masks [][]uint8, fails []failure) {
 
 var (
 	allLengths      = []int{0, 1, 2, 15, 16, 17, 65535, 65536, 65537, 131071, 131072, 131073, 196608, 200001}
-	boundaryLengths = []int{0, 1, 65535, 65536, 65537, 131071, 131072, 131073}
+	boundaryLengths = []int{0, 1, 2, 65535, 65536, 65537, 131071, 131072, 131073}
 	srcPolicies     = []int{0, 1, 7, 4096, 65535, 65536}
 	bufPolicies     = []int{0, 1, 7, 4096}
 	chunkKW         = "A256KW"
@@ -262,7 +272,7 @@ func run(r *enumx.Run, replay *enumx.ReplayCase) {
 		return
 	}
 
-	r.Rule("each evaluation is one complete Encrypt->Decrypt pipeline on the real code with all three oracles (round trip; README layout; reference implementation reads kit's document / kit reads the reference's document written with the manifest members in the opposite order). S1: full product cipher{unset,AES-GCM,CHACHA20-POLY1305} x 8 key-wrap configurations (5 algorithms, 2 aliases, RSA-4096) x 5 key-name options x 14 plaintext lengths x 2 directions. S2: uniform chunking policies (source chunk {fill,1,7,4096,65535,65536} x consumer buffer {big,1,7,4096}) for each pipeline half. S3: every set of <= bound deviations {0 bytes,1 byte,n-1 bytes,stop at segment boundary,data+EOF | 1-byte buffer,7-byte buffer} placed on the calls of the four environments, generated once each in (environment, call index) order from the applicability recorded in the parent run. Every evaluation is a distinct case by construction; none is trivial (each runs the full pipeline).")
+	r.Rule("each evaluation is one complete Encrypt->Decrypt pipeline on the real code with all three oracles (round trip; README layout; reference implementation reads kit's document / kit reads the reference's document written with the manifest members in the opposite order). S1: full product cipher{unset,AES-GCM,CHACHA20-POLY1305} x 8 key-wrap configurations (5 algorithms, 2 aliases, RSA-4096) x 5 key-name options x 14 plaintext lengths x 2 directions. S2: uniform chunking policies (source chunk {fill,1,7,4096,65535,65536} x consumer buffer {big,1,7,4096}) for each pipeline half. S2h: the ciphertext source delivers uniform frames of headerLength+k bytes, k in -2..3, and 2*headerLength+1. S3: every set of <= bound deviations {0 bytes,1 byte,n-1 bytes,stop at segment boundary,data+EOF, Read ends at header end+k for k in -1..3 (ciphertext source) | 1-byte buffer,7-byte buffer} placed on the calls of the four environments, generated once each in (environment, call index) order from the applicability recorded in the parent run. Every evaluation is a distinct case by construction; none is trivial (each runs the full pipeline).")
 
 	// S3 is cheap (a few thousand pipelines), so both tiers take all placements
 	// of <= 2 deviations; quick restricts S2/S3 to the boundary lengths.
@@ -342,6 +352,37 @@ func run(r *enumx.Run, replay *enumx.ReplayCase) {
 	r.Sample(&Case{Len: 65537, Cipher: 1, KW: chunkKW, Policy: [4]int{65535, 7, 0, 0}})
 	r.Sample(&Case{Len: 65536, Cipher: 2, KW: chunkKW, Dir: 1, Policy: [4]int{0, 0, 1, 4096}})
 	lap("S2")
+
+	// ---- S2h: ciphertext delivered in uniform frames of headerLength+k bytes
+	// (k = -2..3) and 2*headerLength+1 bytes, so that Reads end just before,
+	// at and just after the end of the header; both tiers, boundary lengths,
+	// short and long (RSA-4096) header, both directions
+	var s2h []*Case
+	for _, n := range boundaryLengths {
+		for ci := 1; ci <= 2; ci++ {
+			for _, kwl := range []string{chunkKW, "RSA-OAEP-256/4096"} {
+				for dir := 0; dir < 2; dir++ {
+					for _, f := range [][2]int{{1, -2}, {1, -1}, {1, 0}, {1, 1}, {1, 2}, {1, 3}, {2, 1}} {
+						c := &Case{Len: n, Cipher: ci, KW: kwl, Dir: dir}
+						c.Frame.Mul, c.Frame.Add = f[0], f[1]
+						s2h = append(s2h, c)
+					}
+				}
+			}
+		}
+	}
+	done = r.Parallel(len(s2h), func(i int) {
+		_, fails := runCase(s2h[i], false)
+		report(s2h[i], fails)
+		r.Count(1, 1)
+	})
+	if done == len(s2h) {
+		r.Space(fmt.Sprintf("S2h header-relative frame sizes: %d pipelines = %d lengths x 2 ciphers x 2 header sizes x 2 directions x frames {h-2..h+3, 2h+1}", len(s2h), len(boundaryLengths)))
+	} else {
+		r.Incomplete(fmt.Sprintf("S2h header-relative frame sizes: %d of %d", done, len(s2h)))
+	}
+	r.Sample(s2h[len(s2h)/2+3])
+	lap("S2h")
 
 	// ---- S3
 	type root struct {
